@@ -52,7 +52,7 @@ SVC_HDR = ['route id', 'Source', 'Destination', 'TRX type', 'Mode', 'System: spa
 RULES = ['duplicate_city', 'link_unknown_node', 'self_loop_link', 'fused_degree', 'duplicate_link', 'unreferenced_node', 'eqpt_unknown_node',
          'eqpt_unknown_link', 'duplicate_eqpt', 'duplicate_ila']
 MSG2RULE = [('connect a node to itself', 'self_loop_link'), ('FUSED nodes must have exactly two links', 'fused_degree'),
-            ('Duplicate city', 'duplicate_city'), ('The Links sheet references nodes', 'link_unknown_node'),
+            ('per degree impairment id do not match', 'impairment_mismatch'), ('Duplicate city', 'duplicate_city'), ('The Links sheet references nodes', 'link_unknown_node'),
             ('are duplicate', 'duplicate_link'), ('not referenced from the Links sheet', 'unreferenced_node'),
             ('The Eqpt sheet refers to nodes', 'eqpt_unknown_node'),
             ('The Eqpt sheet references links', 'eqpt_unknown_link'),
@@ -237,16 +237,79 @@ def gen_case(rng, big=False):
         case['eqpts'] = eq
         if rng.random() < 0.45:
             rd = []
+            # library ids exist only for type_variety 'detailed_impairments' (0 = express); workbooks with other ids
+            # are converted and compared but not designed
+            free_ids = rng.random() < 0.3
+            city_variety = {}
             for e in eq:
                 if ftypes[e['a']] == 'ROADM' and (e['east']['amp_type'] or '').lower() != 'fused' and rng.random() < 0.6:
-                    rd.append({'a': e['a'], 'z': e['z'], 'target': rng.choice([None, gen_num(rng, -25, -15)]),
-                               'variety': rng.choice([None, None, 'default', 'roadm_type_1'])})
+                    row = {'a': e['a'], 'z': e['z'], 'target': rng.choice([None, gen_num(rng, -25, -15)]),
+                           'variety': None, 'fd': None, 'imp': None}
+                    # express paths from other degrees of the same ROADM whose ingress amplifier is declared
+                    fds = [x['z'] for x in eq if x['a'] == e['a'] and x['z'] != e['z']
+                           and (x['west']['amp_type'] or '').lower() != 'fused']
+                    if fds and rng.random() < 0.6:
+                        fds = rng.sample(fds, rng.randint(1, min(3, len(fds))))
+                        ids = [rng.choice([0, 1, 7, 12]) if free_ids else 0 for _ in fds]
+                        row['fd'] = ' | '.join(fds)
+                        if len(ids) == 1 and case['fmt'] == 'xls' and rng.random() < 0.6:
+                            row['imp'] = ids[0]          # a numeric cell (xlrd: float); see the report for .xlsx
+                        else:
+                            row['imp'] = ' | '.join(rng.choice([str(i), f' {i}', f'+{i}' if i else '0']) for i in ids)
+                        city_variety[e['a']] = 'detailed_impairments'
+                    elif rng.random() < 0.1:
+                        row[rng.choice(['fd', 'imp'])] = '3'     # only one of the two cells: ignored
+                    rd.append(row)
+            for row in rd:
+                cv = city_variety.setdefault(row['a'], rng.choice([None, 'default', 'roadm_type_1']))
+                row['variety'] = rng.choice([cv, cv, None]) if not (free_ids and rng.random() < 0.3) else \
+                    rng.choice([None, 'default', 'roadm_type_1', 'detailed_impairments'])
+            for a_, cv in city_variety.items():
+                rows_a = [r for r in rd if r['a'] == a_]
+                if cv == 'detailed_impairments' and not free_ids and rows_a[-1]['variety'] is None and \
+                        not any(r['variety'] for r in rows_a):
+                    rows_a[0]['variety'] = cv
+            if free_ids and any(r['imp'] is not None and r['fd'] is not None for r in rd):
+                case['no_design'] = True
             case['roadms'] = rd
     return case
 
 
+def line_hops(rng, case, ftypes):
+    """a line site given by its sheet name, usually followed by the sites downstream of it (which is what lets
+    correct_xls_route_list choose between the site's two amplifiers)"""
+    adj = adjacency(case)
+    lines = [c for c, t in ftypes.items() if t != 'ROADM']
+    c = rng.choice(lines)
+    out = [c]
+    prev, cur = c, rng.choice(adj[c])
+    for _ in range(rng.choice([0, 1, 1, 2, 3])):
+        out.append(cur)
+        if ftypes[cur] == 'ROADM' or len(adj[cur]) != 2:
+            break
+        nxt = [x for x in adj[cur] if x != prev] or adj[cur]
+        prev, cur = cur, nxt[0]
+    if rng.random() < 0.1:
+        out.append(c)
+    return out
+
+
+def amp_names(case, ftypes):
+    """uids of amplifiers / fused elements as the converter names them"""
+    out = []
+    rows = {e['a'] for e in case['eqpts'] or []}
+    for c, t in ftypes.items():
+        if t == 'FUSED':
+            out += [f'west fused spans in {c}', f'east fused spans in {c}']
+        elif t == 'ILA' and c not in rows:
+            out += [f'west edfa in {c}', f'east edfa in {c}']
+    for e in case['eqpts'] or []:
+        out += [f"east edfa in {e['a']} to {e['z']}", f"west edfa in {e['a']} to {e['z']}"]
+    return out
+
+
 def gen_services(rng, case, modelled=True):
-    """service rows for a valid topology; modelled=True restricts route entries to the name classes the model covers"""
+    """service rows for a valid topology"""
     ftypes = final_types(case)
     types = {n['city']: norm_type(n['type']) for n in case['nodes']}
     roadms = [c for c, t in ftypes.items() if t == 'ROADM']
@@ -274,10 +337,10 @@ def gen_services(rng, case, modelled=True):
                     ent.append(f"fiber ({l['a']} {ARROW} {l['z']})-{l['east']['cable'] or ''}")
                 elif k < 0.88:
                     ent.append(rng.choice(['nowhere', 'Paris', 'roadm nowhere', 'zz9']))
-                elif not modelled and lines:
-                    ent.append(rng.choice(lines))
+                elif k < 0.94 and lines:
+                    ent += line_hops(rng, case, ftypes)
                 else:
-                    ent.append('roadm ' + rng.choice(roadms))
+                    ent.append(rng.choice(amp_names(case, ftypes) or ['roadm ' + rng.choice(roadms)]))
             if rng.random() < 0.3:
                 ent.insert(0, 'trx ' + src)
             if rng.random() < 0.3:
@@ -374,6 +437,14 @@ def mutate(rng, base, rule):
         c['eqpts'] = [e for e in (c['eqpts'] or []) if e['a'] != a]
         for z in rng.sample(sorted(set(adj[a])), 2):
             c['eqpts'].insert(rng.randint(0, len(c['eqpts'])), {'a': a, 'z': z, 'east': gen_amp(rng, 0.5, False), 'west': dict(blank_amp)})
+    elif rule == 'impairment_mismatch':
+        # a Roadms row whose 'from degrees' and impairment ids differ in number (documented error of create_roadm_element)
+        sites = [n['city'] for n in c['nodes'] if final_types(c)[n['city']] == 'ROADM']
+        a = rng.choice(sites)
+        fds = rng.sample(cities, min(len(cities), rng.choice([1, 2, 3])))
+        ids = list(range(len(fds) + rng.choice([1, 2]))) if rng.random() < 0.5 or len(fds) == 1 else [5]
+        c['roadms'] = (c['roadms'] or []) + [{'a': a, 'z': rng.choice(adj[a]), 'target': None, 'variety': None,
+                                              'fd': ' | '.join(fds), 'imp': ' | '.join(map(str, ids))}]
     elif rule == 'missing_header':
         sheet, h = rng.choice([('Nodes', 'City'), ('Links', 'Node A'), ('Links', 'Node Z'), ('Links', 'east')])
         # the header search of convert.py scans ten lines for a cell *containing* the label: a site called 'east'
@@ -444,7 +515,7 @@ def sheet_grids(case):
     if case['roadms'] is not None:
         rows = [[None]] * 4 + [ROADM_HDR]
         for r in case['roadms']:
-            rows.append([r['a'], r['z'], r['target'], r['variety'], None, None])
+            rows.append([r['a'], r['z'], r['target'], r['variety'], r.get('fd'), r.get('imp')])
         g['Roadms'] = rows
     if case.get('services') is not None:
         rows = [[None]] * 4 + [SVC_HDR]
@@ -632,9 +703,7 @@ def read_fixture(path):
             if r[0] is None:
                 continue
             rec = dict(zip(['a', 'z', 'target', 'variety', 'fd', 'imp'], [r[h.index(l)] if l in h else None for l in ROADM_HDR]))
-            if rec['fd'] is not None or rec['imp'] is not None:
-                return None            # per-degree impairments are not modelled
-            rd.append({'a': rec['a'], 'z': rec['z'], 'target': rec['target'], 'variety': rec['variety']})
+            rd.append(rec)
         case['roadms'] = rd
     # only typed rows are modelled
     for n in case['nodes']:
@@ -656,6 +725,10 @@ def classify_exc(e):
         return 'NetworkTopologyError:?'
     if name == 'IndexError':
         return 'IndexError:site_degree'
+    if name == 'StopIteration':
+        return 'StopIteration:successors'
+    if name == 'ValueError' and 'invalid literal for int' in str(e):
+        return 'ValueError:impairment_id'
     if name in ('ZeroDivisionError', 'ValueError'):
         return f'{name}:pmd'
     if name == 'ServiceError':
@@ -760,7 +833,7 @@ def canon_net_model(txt):
             d['type'] = 'Transceiver'
         elif kind == 'R':
             d['type'] = 'Roadm'
-            v, restr, pdeg = rest
+            v, restr, pdeg, pimp = rest
             if v is not None:
                 d['type_variety'] = v
             if restr is not None or pdeg is not None:
@@ -769,6 +842,9 @@ def canon_net_model(txt):
                     d['params']['restrictions'] = {'preamp_variety_list': restr[0], 'booster_variety_list': restr[1]}
                 if pdeg is not None:
                     d['params']['per_degree_pch_out_db'] = {k: fq(v) for k, v in pdeg}
+                if pimp is not None:
+                    d['params']['per_degree_impairments'] = [{'from_degree': a, 'to_degree': b, 'impairment_id': i}
+                                                             for a, b, i in pimp]
         elif kind == 'F':
             d['type'] = 'Fused'
             if rest[0]:
@@ -882,8 +958,10 @@ def typed_ok(case):
             if not (s(sd['amp_type']) and all(q(sd[k]) for k in AMP_KEYS if k != 'amp_type')):
                 return False
     for r in case['roadms'] or []:
-        if not (isinstance(r['a'], str) and s(r['z']) and q(r['target']) and s(r['variety'])):
+        if not (isinstance(r['a'], str) and s(r['z']) and q(r['target']) and s(r['variety']) and s(r.get('fd'))):
             return False
+        if case['fmt'] == 'xlsx' and r.get('imp') is not None and not isinstance(r['imp'], str):
+            return False       # openpyxl hands integers over as int: transform_data returns None (TypeError), see report
     return True
 
 
@@ -901,7 +979,8 @@ def rows_term(case):
                 f"{oq(a['att_out'])} {oq(a['att_in'])})")
     ls = [f"LR {strlit(l['a'])} {strlit(l['z'] or '')} {side(l['east'])} {side(l['west'])}" for l in case['links']]
     es = [f"ER {strlit(e['a'])} {strlit(e['z'] or '')} {amp(e['east'])} {amp(e['west'])}" for e in case['eqpts'] or []]
-    rs = [f"RR {strlit(r['a'])} {strlit(r['z'] or '')} {oq(r['target'])} {os_(r['variety'])}" for r in case['roadms'] or []]
+    rs = [f"RR {strlit(r['a'])} {strlit(r['z'] or '')} {oq(r['target'])} {os_(r['variety'])} {os_(r.get('fd'))} {cell(r.get('imp'))}"
+          for r in case['roadms'] or []]
     return f'(W {listlit(ns)} {listlit(ls)} {listlit(es)} {listlit(rs)})'
 
 
@@ -1015,6 +1094,27 @@ def oracle_topology(case, data):
             if len(succ.get(e['uid'], ())) != 1 or len(pred.get(e['uid'], ())) != 1:
                 fails.append(('line_degree', f"{e['uid']}: {len(pred.get(e['uid'], ()))} predecessors, "
                               f"{len(succ.get(e['uid'], ()))} successors"))
+    # Roadms rows: per-degree targets and impairments on the ROADM of Node A, between the named degrees
+    for r in case['roadms'] or []:
+        e = by.get(f"roadm {r['a']}")
+        if e is None:
+            fails.append(('roadm_row_without_roadm', r['a']))
+            continue
+        prm = e.get('params', {})
+        to = f"east edfa in {r['a']} to {r['z']}"
+        if r['target'] is not None and to not in prm.get('per_degree_pch_out_db', {}):
+            fails.append(('roadm_row_target', f"{r['a']} -> {r['z']}: no per-degree target"))
+        if r.get('fd') is not None and r.get('imp') is not None:
+            ids = [int(r['imp'])] if not isinstance(r['imp'], str) else [int(x) for x in r['imp'].split(' | ')]
+            for fd, i in zip(r['fd'].split(' | '), ids):
+                want = {'from_degree': f"west edfa in {r['a']} to {fd}", 'to_degree': to, 'impairment_id': i}
+                if want not in prm.get('per_degree_impairments', []):
+                    fails.append(('roadm_row_impairment', f'{want} not on roadm {r["a"]}'))
+                elif want['from_degree'] not in by or to not in by:
+                    fails.append(('roadm_row_impairment', f'{want}: degree is no element'))
+    nimp = sum(len(r['fd'].split(' | ')) for r in case['roadms'] or [] if r.get('fd') is not None and r.get('imp') is not None)
+    if nimp != sum(len(e.get('params', {}).get('per_degree_impairments', [])) for e in els if e['type'] == 'Roadm'):
+        fails.append(('roadm_row_impairment', 'number of per-degree impairments'))
     # Eqpt rows: settings on the amplifier facing the named neighbour
     no_dp = case['layout'].get('no_dp')
     for r in case['eqpts'] or []:
@@ -1162,13 +1262,10 @@ def run(ctx):
         nmal = ctx.scale(96, 480)
         valid = [gen_case(rng) for _ in range(nvalid)] + [gen_case(rng, big=True) for _ in range(nbig)]
         for c in valid:
-            if rng.random() < 0.7:
-                c['services'] = gen_services(rng, c, modelled=True)
+            if rng.random() < 0.9:
+                c['services'] = gen_services(rng, c)
                 c['svc_modelled'] = True
-            elif rng.random() < 0.7:
-                c['services'] = gen_services(rng, c, modelled=False)
-                c['svc_modelled'] = False
-        kinds = RULES + ['missing_header', 'eqpt_on_fused']
+        kinds = RULES + ['missing_header', 'impairment_mismatch', 'eqpt_on_fused']
         k = 0
         while len(malformed) < nmal and k < 20 * nmal:
             k += 1
@@ -1231,8 +1328,13 @@ def run(ctx):
                         ctx.violation(key, desc, strip(c))
                     t0 = time.time()
                     try:
-                        raw, net = try_design(data)
-                        ctx.count('designed_ok')
+                        if c.get('no_design'):
+                            from gnpy.tools.json_io import network_from_json
+                            raw, net = network_from_json(copy.deepcopy(data), equipment()), None
+                            ctx.count('design_not_judged_free_impairment_ids')
+                        else:
+                            raw, net = try_design(data)
+                            ctx.count('designed_ok')
                     except Exception as e:
                         raw = net = None
                         if c.get('fixture'):
@@ -1259,7 +1361,7 @@ def run(ctx):
                     ctx.violation('malformed_wrong_error:' + rule, f'{type(exc).__name__}: {str(exc)[:200]}', strip(c))
                 else:
                     ctx.count('rejected_' + rule)
-                    if rule in RULES + ['missing_header'] and impl != f'NetworkTopologyError:{rule}':
+                    if rule in RULES + ['missing_header', 'impairment_mismatch'] and impl != f'NetworkTopologyError:{rule}':
                         ctx.violation('malformed_other_rule:' + rule, f'rejected by {impl}', strip(c))
             # ---- model
             if rule == 'missing_header':
@@ -1400,9 +1502,22 @@ def run_services(ctx, c, path, raw, net, svc_terms, svc_meta):
             out, impl = read_service_sheet(path, eq, raw, network_filename=path, bidir=bidir), None
         except Exception as e:
             out, impl = None, classify_exc(e)
+        ftypes = final_types(c)
+        for srow in c['services']:
+            for h in (srow['path'] or '').split(' | ') if srow['path'] else []:
+                ctx.count('route_hop_' + ('line_site_name' if ftypes.get(h) in ('ILA', 'FUSED') else
+                                          'roadm_site_name' if ftypes.get(h) == 'ROADM' else
+                                          'uid' if any(h.startswith(x) for x in ('roadm ', 'trx ', 'fiber ', 'east ', 'west ')) else 'unknown'))
+        if out is not None:
+            for pr in out['path-request']:
+                for o in pr.get('explicit-route-objects', {}).get('route-object-include-exclude', []):
+                    nid = o['num-unnum-hop']['node-id']
+                    ctx.count('route_result_' + ('amplifier_or_fused' if nid.startswith(('east ', 'west ')) else 'roadm'))
         svc_terms.append(f'svc_case {rows_term(c)} {equip_term()} {"true" if bidir else "false"} '
                          f'{listlit([req_row_term(s) for s in c["services"]])}')
         svc_meta.append((c, out, impl))
+    if net is None:
+        return
     try:
         out = read_service_sheet(path, eq, net, network_filename=path, bidir=bidir)
     except Exception as e:
